@@ -9,7 +9,8 @@
    (Gabriel; Carlsson - de Silva 2010; = generalised rank of Kim - Memoli / Dey - Kim - Memoli).
    Vectors over Z_2 are [list bool] read with [get] (a missing tail is zero), so equality is [veq] (pointwise). *)
 From Coq Require Import ZArith List Bool Arith Sorting.Permutation.
-Require Import C07_Model C07_Gauss C07_Proofs C07_Skip.
+Require Import C07_Model C07_Gauss C07_Proofs C07_Skip C07_Ident.
+Require C07_Betti.
 Import ListNotations.
 Open Scope Z_scope.
 
@@ -51,7 +52,7 @@ Proof. exact rank_independent. Qed.
 Print Assumptions C07_rank_of_independent_family.
 
 Theorem C07_rank_range : forall M, 0 <= rank M <= Z.of_nat (length M).
-Proof. intro M. split; [apply rank_nonneg|apply rank_le_length]. Qed.
+Proof. exact rank_range. Qed.
 Print Assumptions C07_rank_range.
 
 (* the step "keep the pairs whose y-part vanishes on the removed cell" computes exactly that subspace *)
@@ -99,6 +100,34 @@ Theorem C07_alive_count_is_rank_at_i_checked : forall s k i, (i < length s)%nat 
   alive_count (bars_of_dim s k) k i = rfun (length s) (rtab s k) (Z.of_nat i) (Z.of_nat i).
 Proof. exact alive_count_is_rii_checked. Qed.
 Print Assumptions C07_alive_count_is_rank_at_i_checked.
+
+(* r_k(i,i) IS the Betti number of K_i (rank-nullity for the relation the sweep starts from), for every valid sequence *)
+Theorem C07_rank_at_i_is_betti : forall s k i, valid s = true -> (i < length s)%nat ->
+  rfun (length s) (rtab s k) (Z.of_nat i) (Z.of_nat i) = betti s k i.
+Proof. exact C07_Betti.rii_is_betti. Qed.
+Print Assumptions C07_rank_at_i_is_betti.
+
+(* hence: the number of bars alive at arrow i in dimension k equals the Betti number beta_k(K_i) *)
+Theorem C07_alive_count_is_betti : forall s k i, valid s = true -> (i < length s)%nat -> mult_nonneg s k = true ->
+  alive_count (bars_of_dim s k) k i = betti s k i.
+Proof. exact C07_Betti.alive_count_is_betti. Qed.
+Print Assumptions C07_alive_count_is_betti.
+
+(* identity arrows are transparent: no bar is born or dies at an identity arrow *)
+Theorem C07_no_death_at_identity : forall s k b e, (b <= e)%nat -> nth_error s (S e) = Some NId ->
+  mult (rfun (length s) (rtab s k)) (Z.of_nat b) (Z.of_nat e) = 0.
+Proof. exact no_death_at_identity. Qed.
+Print Assumptions C07_no_death_at_identity.
+
+Theorem C07_no_birth_at_identity : forall s k b e, (b <= e)%nat -> nth_error s b = Some NId ->
+  mult (rfun (length s) (rtab s k)) (Z.of_nat b) (Z.of_nat e) = 0.
+Proof. exact no_birth_at_identity. Qed.
+Print Assumptions C07_no_birth_at_identity.
+
+Theorem C07_bars_avoid_identity_arrows : forall s k x, In x (bars_of_dim s k) ->
+  nth_error s (snd (fst x)) <> Some NId /\ (forall d, snd x = Some d -> nth_error s d <> Some NId).
+Proof. exact bars_avoid_identity_arrows. Qed.
+Print Assumptions C07_bars_avoid_identity_arrows.
 
 (* non-vacuity: the documentation's sequence satisfies the hypotheses, and its barcode is the documented one *)
 Theorem C07_example_sequence : valid doc_sequence = true /\ mult_nonneg doc_sequence 0 = true /\ mult_nonneg doc_sequence 1 = true /\
@@ -179,9 +208,5 @@ Print Assumptions C07_arrow_numbering_aligned.
    Missing: the link between the ranks of the relation sweep and the lows of a reduced matrix. *)
 Definition C07_insertion_only_full : Prop := forall s l, valid s = true -> insertion_only s = true ->
   ordinary_bars s = Some l -> Permutation l (barcode s).
-(* A3, second half: r_k(i,i) is the Betti number of K_i.  Missing: rank of the initial relation
-   {(z,z)} + B x 0  =  dim Z + dim B  (block rank lemmas). *)
-Definition C07_rank_at_i_is_betti_full : Prop := forall s k i, valid s = true -> (i < length s)%nat ->
-  rfun (length s) (rtab s k) (Z.of_nat i) (Z.of_nat i) = betti s k i.
 (* multiplicities are never negative (true because r counts summands: the literature theorem) *)
 Definition C07_mult_nonneg_full : Prop := forall s k, valid s = true -> mult_nonneg s k = true.
